@@ -145,6 +145,8 @@ def run(tier, seed):
                sfc_models.sector.Market._GenerateMultiSupply, sfc_models.sector.Market._SearchSupplier,
                sfc_models.sector.Market.GetSupplierTerm, sfc_models.sector.Sector.GenerateAssetWeighting,
                sd.MoneyMarket._GenerateEquations, sd.DepositMarket._GenerateEquations, sfc_models.sector.Sector.AddCashFlow)
+    from vf import zoolib
+    zoolib.XCHECK_EVERY[0] = 25 if tier == 'quick' else 5
     plans = Z.zoo(tier)
     chk.bounds = {'topologies': len(plans), 'periods': 'any one period k>=1 (period b with model-consistent predecessor)',
                   'numeric domain': 'all reals (exogenous, lagged state, declared parameters); exchange rates > 0',
